@@ -1,17 +1,30 @@
 #!/bin/bash
-# Re-run every seeded change against the quick check of its own property on the current /repo tree and
-# write seeded/MATRIX.md.  /repo must be clean; each patch is applied transiently and reverted.
+# Re-run every seeded change against the quick check of its own property and write seeded/MATRIX.md.
+# Each change runs against a PRIVATE patched copy of /repo and a private copy of /verif (tools/par_mutant.sh: bind mounts in a
+# private mount namespace), 4 at a time; /repo and /verif/evidence are never touched.
 cd /verif
 out=seeded/MATRIX.md
-echo "| seeded change | patch used | quick check | violations reported |" > $out
-echo "|---|---|---|---|" >> $out
-for d in seeded/C*/ seeded/R2-C*/ seeded/X*/; do
-  id=$(basename $d)
-  chk=${id#R2-}; [ "$chk" = "X01" ] && chk=C19
+tmp=$(mktemp -d /tmp/matrix.XXXXXX)
+job() {
+  d=$1; id=$(basename $d)
+  chk=${id#R2-}; chk=${chk#R3-}; [ "$chk" = "X01" ] && chk=C19
   p=/verif/$d/patch.diff
   [ -f /verif/$d/patch_on_repaired_tree.diff ] && p=/verif/$d/patch_on_repaired_tree.diff
-  res=$(tools/run_mutant.sh $p $chk 2>&1 | grep -E "^== |PATCH DOES NOT")
+  res=$(tools/par_mutant.sh M-$id $p $chk 2>&1 | grep -E "^== |PATCH DOES NOT")
   nv=$(echo "$res" | sed -n 's/.*violations=\([0-9]*\).*/\1/p')
-  echo "| $id | $(basename $p) | ./check $chk --tier quick | ${nv:-$res} |" >> $out
+  nf=$(echo "$res" | grep -c "no-failing-input-found")
+  echo "| $id | $(basename $p) | ./check $chk --tier quick | ${nv:-$res} |" > $tmp/$id.row
   echo "$id ${nv:-$res}"
-done
+}
+export -f job; export tmp
+ls -d seeded/C*/ seeded/R2-C*/ seeded/R3-C*/ seeded/X*/ | xargs -P 4 -I{} bash -c 'job {}'
+echo "| seeded change | patch used | quick check | violations reported |" > $out
+echo "|---|---|---|---|" >> $out
+for d in seeded/C*/ seeded/R2-C*/ seeded/R3-C*/ seeded/X*/; do cat $tmp/$(basename $d).row >> $out; done
+cat >> $out <<'EON'
+
+Round 1 = seeded/Cxx (made against the original snapshot), round 2 = seeded/R2-Cxx and round 3 = seeded/R3-Cxx (made against the
+repaired tree, each told which functions the earlier rounds had changed), X01 = reverse of fix 62b736f.  A row with 0 violations is
+explained in DESIGN.md 8.5.
+EON
+rm -rf $tmp
